@@ -1064,3 +1064,494 @@ Section Runs.
     destruct m; reflexivity.
   Qed.
 End Runs.
+
+(* ====================================================================== *)
+(* Wave 2: temporary_once at SessionManager level                          *)
+
+Lemma nth_error_upd_nth_same : forall {A} (f : A -> A) l n x,
+  nth_error l n = Some x -> nth_error (upd_nth n f l) n = Some (f x).
+Proof.
+  intros A f l. induction l as [|y l IH]; intros [|n] x H; cbn in *; try discriminate.
+  - inversion H; reflexivity.
+  - apply IH. exact H.
+Qed.
+
+Lemma nth_error_upd_nth_other : forall {A} (f : A -> A) l n m, n <> m -> nth_error (upd_nth n f l) m = nth_error l m.
+Proof.
+  intros A f l. induction l as [|y l IH]; intros [|n] [|m] H; cbn; try reflexivity; try contradiction.
+  apply IH. congruence.
+Qed.
+
+Lemma upd_nth_id : forall {A} (f : A -> A) l n x, nth_error l n = Some x -> f x = x -> upd_nth n f l = l.
+Proof.
+  intros A f l. induction l as [|y l IH]; intros [|n] x H Hf; cbn in *; try discriminate; try reflexivity.
+  - inversion H; subst. rewrite Hf. reflexivity.
+  - f_equal. eapply IH; eassumption.
+Qed.
+
+Lemma resolve_cap_none_same : forall r url c r', resolve_cap r url c = (None, r') -> r' = r.
+Proof.
+  intros r url c r'. unfold resolve_cap.
+  destruct (find (fun le : lentry => prefix (fst le) url) (r_lookup r)) as [[u0 [t0 n0]]|].
+  - destruct (captype_eqb t0 TEMPORARY && c); discriminate.
+  - intro E. inversion E. reflexivity.
+Qed.
+
+(* what a lookup did: nothing (miss), or it hit region j (possibly consuming a temporary cap there) *)
+Lemma regions_resolve_effect : forall rs si ri url res rs',
+  regions_resolve si ri rs url = (res, rs') ->
+  (res = None /\ rs' = rs) \/
+  exists j r r' name u ty,
+    nth_error rs j = Some r /\ resolve_cap r url true = (Some (name, u, ty), r') /\
+    res = Some (capdata_of si (ri + j) name ty u) /\ rs' = upd_nth j (fun _ => r') rs.
+Proof.
+  induction rs as [|r rs IH]; intros si ri url res rs' E; cbn [regions_resolve] in E.
+  - inversion E. left. split; reflexivity.
+  - destruct (resolve_cap r url true) as [[[[name base] ty]|] r1] eqn:Er.
+    + inversion E; subst. right. exists 0, r, r1, name, base, ty. rewrite Nat.add_0_r. repeat split; first [reflexivity|assumption].
+    + apply resolve_cap_none_same in Er as Hr. subst r1.
+      destruct (regions_resolve si (S ri) rs url) as [res2 t'] eqn:Et. inversion E; subst.
+      destruct (IH _ _ _ _ _ Et) as [[H1 H2]|[j [r0 [r' [name [u [ty [Hn [Hr [Hres Hrs]]]]]]]]]].
+      * left. subst. split; reflexivity.
+      * right. exists (S j), r0, r', name, u, ty. rewrite Nat.add_succ_r. cbn. subst. repeat split; first [reflexivity|assumption].
+Qed.
+
+Definition upd_session_region (ri : nat) (r' : Region) (s : Session) : Session :=
+  set_regions s (upd_nth ri (fun _ => r') (s_regions s)).
+
+Lemma session_resolve_effect : forall s si url res s',
+  session_resolve si s url = (res, s') ->
+  (res = None /\ s' = s) \/
+  (exists n u, res = Some (global_cd n u) /\ s' = s) \/
+  exists ri r r' name u ty,
+    nth_error (s_regions s) ri = Some r /\ resolve_cap r url true = (Some (name, u, ty), r') /\
+    res = Some (capdata_of si ri name ty u) /\ s' = upd_session_region ri r' s.
+Proof.
+  intros s si url res s'. unfold session_resolve.
+  destruct (find (fun g : str * str => prefix (snd g) url) (s_global s)) as [[n u]|].
+  - intro E. inversion E; subst. right. left. exists n, u. split; reflexivity.
+  - destruct (regions_resolve si 0 (s_regions s) url) as [r rs'] eqn:Er. intro E. inversion E; subst.
+    destruct (regions_resolve_effect _ _ _ _ _ _ Er) as [[H1 H2]|[j [r0 [r' [name [u [ty [Hn [Hr [Hres Hrs]]]]]]]]]].
+    + left. subst. rewrite set_regions_same. split; reflexivity.
+    + right. right. exists j, r0, r', name, u, ty. cbn [Nat.add] in Hres. subst. repeat split; first [reflexivity|assumption].
+Qed.
+
+Lemma global_cd_falsy_or_truthy : forall n u, cd_truthy (global_cd n u) = truthy_str (Some n).
+Proof. intros. unfold cd_truthy, global_cd. cbn. apply orb_false_r. Qed.
+
+Lemma sessions_resolve_effect : forall ss k url cd ss',
+  sessions_resolve k ss url = (cd, ss') ->
+  (cd = empty_cd /\ ss' = ss) \/
+  (exists n u, cd = global_cd n u /\ ss' = ss) \/
+  exists i s ri r r' name u ty,
+    nth_error ss i = Some s /\ nth_error (s_regions s) ri = Some r /\
+    resolve_cap r url true = (Some (name, u, ty), r') /\
+    cd = capdata_of (k + i) ri name ty u /\ ss' = upd_nth i (upd_session_region ri r') ss.
+Proof.
+  induction ss as [|s ss IH]; intros k url cd ss' E; cbn [sessions_resolve] in E.
+  - inversion E. left. split; reflexivity.
+  - destruct (session_resolve k s url) as [[cd'|] s1] eqn:Es.
+    + destruct (session_resolve_effect _ _ _ _ _ Es) as [[H _]|[[n [u [H1 H2]]]|[ri [r [r' [name [u [ty [Hn [Hr [Hres Hs]]]]]]]]]]];
+        [discriminate| |].
+      * inversion H1; subst cd' s1. destruct (cd_truthy (global_cd n u)).
+        -- inversion E; subst. right. left. exists n, u. split; reflexivity.
+        -- destruct (sessions_resolve (S k) ss url) as [r2 t'] eqn:Et. inversion E; subst.
+           destruct (IH _ _ _ _ Et) as [[H3 H4]|[[n' [u' [H3 H4]]]|[i [s0 [ri [r [r' [name [u0 [ty [Hi [Hn [Hr [Hres Hs]]]]]]]]]]]]]].
+           ++ left. subst. split; reflexivity.
+           ++ right. left. exists n', u'. subst. split; reflexivity.
+           ++ right. right. exists (S i), s0, ri, r, r', name, u0, ty. rewrite Nat.add_succ_r. cbn. subst. repeat split; first [reflexivity|assumption].
+      * inversion Hres; subst cd'. rewrite capdata_of_truthy in E. inversion E; subst.
+        right. right. exists 0, s, ri, r, r', name, u, ty. rewrite Nat.add_0_r. repeat split; first [reflexivity|assumption].
+    + destruct (session_resolve_effect _ _ _ _ _ Es) as [[_ H]|[[n [u [H1 _]]]|[ri [r [r' [name [u [ty [_ [_ [Hres _]]]]]]]]]]];
+        [|discriminate|discriminate]. subst s1.
+      destruct (sessions_resolve (S k) ss url) as [r2 t'] eqn:Et. inversion E; subst.
+      destruct (IH _ _ _ _ Et) as [[H3 H4]|[[n' [u' [H3 H4]]]|[i [s0 [ri [r [r' [name [u0 [ty [Hi [Hn [Hr [Hres Hs]]]]]]]]]]]]]].
+      * left. subst. split; reflexivity.
+      * right. left. exists n', u'. subst. split; reflexivity.
+      * right. right. exists (S i), s0, ri, r, r', name, u0, ty. rewrite Nat.add_succ_r. cbn. subst. repeat split; first [reflexivity|assumption].
+Qed.
+
+Lemma unambiguous_all_hits : forall ss si ri e sfx,
+  unambiguous ss -> site ss si ri e -> all_hits 0 ss (e_url e ++ sfx) (site_cd si ri e).
+Proof.
+  intros ss si ri e sfx [Hu1 Hu2] Hs i s Hi. split.
+  - intros n u Hin Hp. apply (Hu2 si ri e i s n u Hs Hi Hin).
+    exact (prefix_comparable _ _ _ Hp (prefix_app _ _)).
+  - intros ri' r e' Hr Hin Hp. cbn [Nat.add]. symmetry. apply Hu1; [exact Hs | exists s, r; auto |].
+    exact (prefix_comparable _ _ _ (prefix_app _ _) Hp).
+Qed.
+
+Lemma site_cd_inj_nonasset : forall i' ri' e0 si ri n t u,
+  is_asset_server_cap_name n = false ->
+  site_cd i' ri' e0 = site_cd si ri (n, (t, u)) -> i' = si /\ ri' = ri /\ e0 = (n, (t, u)).
+Proof.
+  intros i' ri' [n0 [t0 u0]] si ri n t u Ha. unfold site_cd, capdata_of. cbn [fst snd]. rewrite Ha. cbn [andb].
+  destruct (is_asset_server_cap_name n0 && negb (captype_eqb t0 WRAPPER)); intro H; inversion H; subst.
+  repeat split.
+Qed.
+
+(* temporary_once at SessionManager level: the first lookup of a one-shot URL resolves to it (name, type,
+   region, session) and removes exactly that grant from exactly that region; the second lookup of the same
+   URL finds nothing and changes nothing *)
+Theorem temporary_once_state : forall ss si ri n u sfx,
+  Forall good_session ss -> unambiguous ss ->
+  site ss si ri (n, (TEMPORARY, u)) ->
+  is_asset_server_cap_name n = false ->
+  (forall s r, nth_error ss si = Some s -> nth_error (s_regions s) ri = Some r ->
+               count_occ tu_dec (md_getall n (r_caps r)) (TEMPORARY, u) = 1) ->
+  exists s r r',
+    nth_error ss si = Some s /\ nth_error (s_regions s) ri = Some r /\
+    resolve_cap r (u ++ sfx) true = (Some (n, u, TEMPORARY), r') /\
+    sessions_resolve 0 ss (u ++ sfx) =
+      (site_cd si ri (n, (TEMPORARY, u)), upd_nth si (upd_session_region ri r') ss) /\
+    sessions_resolve 0 (upd_nth si (upd_session_region ri r') ss) (u ++ sfx) =
+      (empty_cd, upd_nth si (upd_session_region ri r') ss).
+Proof.
+  intros ss si ri n u sfx Hg Hu Hs Ha Hcnt.
+  pose proof (resolve_sound_state ss si ri _ sfx Hg Hu Hs) as Hfirst. cbn [e_url snd] in Hfirst.
+  pose proof (unambiguous_all_hits ss si ri _ sfx Hu Hs) as Hall. cbn [e_url snd] in Hall.
+  destruct (sessions_resolve 0 ss (u ++ sfx)) as [cd ss'] eqn:E. cbn [fst] in Hfirst. subst cd.
+  pose proof (good_sessions_resolve _ _ _ _ _ Hg E) as Hg'.
+  destruct (sessions_resolve_effect _ _ _ _ _ E)
+    as [[H _]|[[n0 [u0 [H _]]]|[i [s [ri' [r [r' [name [u' [ty [Hi [Hr [Hres [Hcd Hss]]]]]]]]]]]]]].
+  - exfalso. revert H. unfold site_cd, capdata_of. cbn [fst snd]. rewrite Ha. discriminate.
+  - exfalso. revert H. unfold site_cd, capdata_of, global_cd. cbn [fst snd]. rewrite Ha. discriminate.
+  - cbn [Nat.add] in Hcd. symmetry in Hcd.
+    destruct (site_cd_inj_nonasset i ri' (name, (ty, u')) si ri n TEMPORARY u Ha Hcd) as [-> [-> Heq]].
+    inversion Heq; subst name ty u'. clear Heq Hcd.
+    exists s, r, r'. split; [exact Hi|]. split; [exact Hr|]. split; [exact Hres|]. subst ss'. split; [reflexivity|].
+    assert (Hgs : good_session s) by exact (Forall_nth_error good_session ss si s Hg Hi).
+    assert (Hgr : good_region r) by exact (Forall_nth_error good_region _ ri r Hgs Hr).
+    (* in region (si, ri) nothing hits any more *)
+    assert (Hnone : resolve_cap r' (u ++ sfx) true = (None, r')).
+    { apply (temporary_once_region r (u ++ sfx) n u r' Hgr Hres); [|exact (Hcnt s r Hi Hr)].
+      intros e He Hp. destruct (Hall si s Hi) as [_ Hb]. specialize (Hb ri r e Hr He Hp).
+      apply (site_cd_inj_nonasset si ri e si ri n TEMPORARY u Ha) in Hb. apply Hb. }
+    assert (Hgr' : good_region r') by (eapply good_resolve_cap; eassumption).
+    destruct (resolve_cap_miss _ _ _ _ (proj1 Hgr') Hnone) as [_ Hmiss].
+    apply sessions_resolve_none; [exact Hg'|].
+    intros i' s' Hi'.
+    destruct (Nat.eq_dec si i') as [<-|Hne].
+    + rewrite (nth_error_upd_nth_same _ _ _ _ Hi) in Hi'. inversion Hi'; subst s'. clear Hi'. split.
+      * intros n0 u0 Hin. cbn [upd_session_region set_regions s_global] in Hin.
+        destruct (prefix u0 (u ++ sfx)) eqn:Ep; [|reflexivity]. exfalso.
+        destruct (Hall si s Hi) as [Hglob _]. specialize (Hglob n0 u0 Hin Ep).
+        revert Hglob. unfold site_cd, capdata_of, global_cd. cbn [fst snd]. rewrite Ha. discriminate.
+      * intros rj r0 e0 Hr0 Hin0. cbn [upd_session_region set_regions s_regions] in Hr0.
+        destruct (Nat.eq_dec ri rj) as [<-|Hnr].
+        -- rewrite (nth_error_upd_nth_same _ _ _ _ Hr) in Hr0. inversion Hr0; subst r0. apply Hmiss. exact Hin0.
+        -- rewrite nth_error_upd_nth_other in Hr0 by exact Hnr.
+           destruct (prefix (e_url e0) (u ++ sfx)) eqn:Ep; [|reflexivity]. exfalso.
+           destruct (Hall si s Hi) as [_ Hb]. specialize (Hb rj r0 e0 Hr0 Hin0 Ep).
+           apply (site_cd_inj_nonasset si rj e0 si ri n TEMPORARY u Ha) in Hb. destruct Hb as [_ [Hb _]]. congruence.
+    + rewrite nth_error_upd_nth_other in Hi' by exact Hne. destruct (Hall i' s' Hi') as [Hglob Hb]. split.
+      * intros n0 u0 Hin. destruct (prefix u0 (u ++ sfx)) eqn:Ep; [|reflexivity]. exfalso.
+        specialize (Hglob n0 u0 Hin Ep).
+        revert Hglob. unfold site_cd, capdata_of, global_cd. cbn [fst snd]. rewrite Ha. discriminate.
+      * intros rj r0 e0 Hr0 Hin0. destruct (prefix (e_url e0) (u ++ sfx)) eqn:Ep; [|reflexivity]. exfalso.
+        specialize (Hb rj r0 e0 Hr0 Hin0 Ep). cbn [Nat.add] in Hb.
+        apply (site_cd_inj_nonasset i' rj e0 si ri n TEMPORARY u Ha) in Hb. destruct Hb as [Hb _]. congruence.
+Qed.
+
+Section RunsTemp.
+  Variable fresh : nat -> str.
+  Variable wrap : str -> str -> str -> str.
+
+  (* ... over op sequences: after ANY run, with unambiguous grants, a once-granted non-asset TEMPORARY cap
+     resolves on the first lookup (to its name, type, region, session), the lookup removes exactly that grant
+     (every other by-name list of every region is unchanged), and the second lookup resolves to nothing *)
+  Theorem temporary_once : forall ops si ri n u sfx,
+    let m := run fresh wrap ops init_manager in
+    unambiguous (m_sessions m) ->
+    site (m_sessions m) si ri (n, (TEMPORARY, u)) ->
+    is_asset_server_cap_name n = false ->
+    (forall r, get_region m si ri = Some r -> count_occ tu_dec (md_getall n (r_caps r)) (TEMPORARY, u) = 1) ->
+    let m1 := fst (step fresh wrap m (OResolve (u ++ sfx))) in
+    snd (step fresh wrap m (OResolve (u ++ sfx))) = OCap (site_cd si ri (n, (TEMPORARY, u))) /\
+    step fresh wrap m1 (OResolve (u ++ sfx)) = (m1, OCap empty_cd) /\
+    (forall si' ri', (si', ri') <> (si, ri) -> get_region m1 si' ri' = get_region m si' ri') /\
+    (exists r r', get_region m si ri = Some r /\ get_region m1 si ri = Some r' /\
+       forall n', md_getall n' (r_caps r') =
+                  if str_eqb n n' then remove_first tu_eqb (TEMPORARY, u) (md_getall n (r_caps r))
+                  else md_getall n' (r_caps r)).
+  Proof.
+    intros ops si ri n u sfx m Hu Hs Ha Hcnt m1.
+    assert (Hg : good_manager m) by (apply good_run; apply good_init).
+    destruct (temporary_once_state (m_sessions m) si ri n u sfx Hg Hu Hs Ha) as [s [r [r' [Hi [Hr [Hres [H1 H2]]]]]]].
+    { intros s r Hi Hr. apply Hcnt. unfold get_region. rewrite Hi. exact Hr. }
+    subst m1. cbn [step]. rewrite H1. cbn [fst snd set_sessions m_sessions]. rewrite H2.
+    split; [reflexivity|]. split; [destruct m; reflexivity|]. split.
+    - intros si' ri' Hne. unfold get_region. cbn [m_sessions set_sessions].
+      destruct (Nat.eq_dec si si') as [<-|Hns].
+      + rewrite (nth_error_upd_nth_same _ _ _ _ Hi), Hi. cbn [upd_session_region set_regions s_regions].
+        apply nth_error_upd_nth_other. congruence.
+      + rewrite nth_error_upd_nth_other by exact Hns. reflexivity.
+    - exists r, r'. unfold get_region. cbn [m_sessions set_sessions]. rewrite Hi, (nth_error_upd_nth_same _ _ _ _ Hi).
+      cbn [upd_session_region set_regions s_regions]. rewrite (nth_error_upd_nth_same _ _ _ _ Hr).
+      split; [exact Hr|]. split; [reflexivity|].
+      assert (Hgr : good_region r) by (eapply good_get_region; [exact Hg|unfold get_region; rewrite Hi; exact Hr]).
+      exact (proj1 (proj2 (resolve_cap_consume _ _ _ _ _ Hgr Hres))).
+  Qed.
+End RunsTemp.
+
+(* ====================================================================== *)
+(* Wave 2: the wrapped-asset clause of the seed response                   *)
+
+Lemma dict_get_set_same : forall {V} k (v : V) d, dict_get k (dict_set k v d) = Some v.
+Proof.
+  intros V k v d. induction d as [|[k0 v0] d IH]; cbn.
+  - rewrite str_eqb_refl. reflexivity.
+  - destruct (str_eqb k0 k) eqn:E; cbn; rewrite E; [reflexivity|exact IH].
+Qed.
+
+Lemma dict_get_set_other : forall {V} k k' (v : V) d, k' <> k -> dict_get k' (dict_set k v d) = dict_get k' d.
+Proof.
+  intros V k k' v d Hne. induction d as [|[k0 v0] d IH]; cbn.
+  - destruct (str_eqb k k') eqn:E; [apply str_eqb_eq in E; congruence|reflexivity].
+  - destruct (str_eqb k0 k) eqn:E; cbn.
+    + apply str_eqb_eq in E. subst k0. destruct (str_eqb k k') eqn:E2; [apply str_eqb_eq in E2; congruence|reflexivity].
+    + destruct (str_eqb k0 k'); [reflexivity|exact IH].
+Qed.
+
+Lemma dict_mem_set_other : forall {V} k k' (v : V) d, k' <> k -> dict_mem k' (dict_set k v d) = dict_mem k' d.
+Proof. intros. unfold dict_mem. rewrite dict_get_set_other by assumption. reflexivity. Qed.
+
+Lemma update_caps_keep_head : forall body r k,
+  ~ In k (map fst body) -> md_get k (r_caps (update_caps r body)) = md_get k (r_caps r).
+Proof.
+  unfold update_caps. induction body as [|[k2 v2] body IH]; intros r k Hni; cbn [fold_left fst snd]; [reflexivity|].
+  cbn [map fst] in Hni. rewrite IH by (intro; apply Hni; right; assumption).
+  destruct v2 as [u2|t2]; [|reflexivity]. destruct (prefix c_http u2); [|reflexivity].
+  cbn. apply md_get_add_other. intro; subst; apply Hni; left; reflexivity.
+Qed.
+
+Lemma update_caps_head : forall body r k u0,
+  NoDup (map fst body) -> In (k, VStr u0) body -> prefix c_http u0 = true ->
+  md_get k (r_caps (update_caps r body)) = Some (NORMAL, u0).
+Proof.
+  induction body as [|[k1 v1] body IH]; intros r k u0 Hnd Hin Hp; [destruct Hin|].
+  cbn [map fst] in Hnd. inversion Hnd as [|? ? Hni Hnd']; subst.
+  destruct Hin as [H|H].
+  - inversion H; subst.
+    change (update_caps r ((k, VStr u0) :: body)) with
+      (update_caps (if prefix c_http u0 then register_cap r k u0 NORMAL else r) body).
+    rewrite Hp, (update_caps_keep_head body _ k Hni). cbn. apply md_get_add_same.
+  - change (update_caps r ((k1, v1) :: body)) with
+      (update_caps (match v1 with VStr u => if prefix c_http u then register_cap r k1 u NORMAL else r | VOther _ => r end) body).
+    apply IH; assumption.
+Qed.
+
+Lemma dict_mem_In : forall {V} k (v : V) d, In (k, v) d -> dict_mem k d = true.
+Proof.
+  intros V k v d. unfold dict_mem. induction d as [|[k1 v1] d IH]; intro H; [destruct H|]. cbn.
+  destruct (str_eqb k1 k) eqn:E; [reflexivity|]. destruct H as [H|H].
+  - inversion H; subst. rewrite str_eqb_refl in E. discriminate.
+  - apply IH. exact H.
+Qed.
+
+Section WrapClause.
+  Variable wrap : str -> str -> str -> str.
+
+  Lemma seed_wrap_get_other : forall worder r p p' r' k,
+    seed_wrap wrap worder r p = (Some p', r') -> ~ In k worder -> dict_get k p' = dict_get k p.
+  Proof.
+    induction worder as [|n t IH]; intros r p p' r' k E Hni; cbn [seed_wrap] in E.
+    - inversion E; subst. reflexivity.
+    - assert (Hk : k <> n) by (intro; subst; apply Hni; left; reflexivity).
+      assert (Hni' : ~ In k t) by (intro; apply Hni; right; assumption).
+      destruct (dict_mem n p); [|eapply IH; eassumption].
+      destruct (register_wrapper_cap wrap r n) as [[w r1]|]; [|discriminate].
+      rewrite (IH _ _ _ _ _ E Hni'). apply dict_get_set_other. exact Hk.
+  Qed.
+
+  Lemma seed_needed_get_other : forall needed r p p' k,
+    seed_needed needed r p = Some p' -> ~ In k needed -> dict_get k p' = dict_get k p.
+  Proof.
+    induction needed as [|n t IH]; intros r p p' k E Hni; cbn [seed_needed] in E.
+    - inversion E; subst. reflexivity.
+    - destruct (cap_url r n) as [u|]; [|discriminate].
+      rewrite (IH _ _ _ _ E) by (intro; apply Hni; right; assumption).
+      apply dict_get_set_other. intro; subst; apply Hni; left; reflexivity.
+  Qed.
+
+  (* no wrappable name is another wrappable name (or "Seed") with "ProxyWrapper" appended *)
+  Definition wrapper_names_disjoint (worder : list str) : Prop :=
+    forall a, In a worder -> forall b, In b worder \/ b = c_Seed -> (a ++ c_ProxyWrapper)%list <> b.
+
+  Lemma seed_wrap_exact : forall worder r p p' r',
+    wrapper_names_disjoint worder ->
+    seed_wrap wrap worder r p = (Some p', r') ->
+    forall k, In k worder -> dict_mem k p = true ->
+    exists t u ts seed,
+      md_get k (r_caps r) = Some (t, u) /\ md_get c_Seed (r_caps r) = Some (ts, seed) /\
+      dict_get k p' = Some (VStr (wrap k seed u)) /\
+      In ((k ++ c_ProxyWrapper)%list, (WRAPPER, wrap k seed u)) (r_caps r').
+  Proof.
+    induction worder as [|a t IH]; intros r p p' r' Hd E k Hk Hm; [destruct Hk|].
+    assert (Hd' : wrapper_names_disjoint t).
+    { intros x Hx b Hb. apply Hd; [right; exact Hx|]. destruct Hb as [Hb|Hb]; [left; right; exact Hb|right; exact Hb]. }
+    cbn [seed_wrap] in E.
+    destruct (dict_mem a p) eqn:Ema.
+    - destruct (register_wrapper_cap wrap r a) as [[w r1]|] eqn:Ew; [|discriminate].
+      unfold register_wrapper_cap in Ew.
+      destruct (md_get a (r_caps r)) as [[t1 u1]|] eqn:Ea; [|discriminate].
+      destruct (md_get c_Seed (r_caps r)) as [[t2 s2]|] eqn:Es; [|discriminate].
+      inversion Ew; subst w r1. clear Ew.
+      set (r1 := register_cap r (a ++ c_ProxyWrapper)%list (wrap a s2 u1) WRAPPER) in *.
+      assert (Hget : forall b, In b (a :: t) \/ b = c_Seed -> md_get b (r_caps r1) = md_get b (r_caps r)).
+      { intros b Hb. subst r1. cbn. apply md_get_add_other. intro Heq. symmetry in Heq. revert Heq.
+        apply Hd; [left; reflexivity|exact Hb]. }
+      destruct (in_dec (list_eq_dec ascii_dec) k t) as [Hkt|Hkt].
+      + destruct (list_eq_dec ascii_dec k a) as [->|Hne].
+        * destruct (IH _ _ _ _ Hd' E a Hkt) as [t' [u' [ts' [seed' [H1 [H2 [H3 H4]]]]]]].
+          { unfold dict_mem. rewrite dict_get_set_same. reflexivity. }
+          rewrite (Hget a (or_introl (or_introl eq_refl))) in H1. rewrite (Hget c_Seed (or_intror eq_refl)) in H2.
+          rewrite Es in H2. inversion H2; subst ts' seed'.
+          exists t', u', t2, s2. repeat split; first [assumption|reflexivity].
+        * destruct (IH _ _ _ _ Hd' E k Hkt) as [t' [u' [ts' [seed' [H1 [H2 [H3 H4]]]]]]].
+          { rewrite dict_mem_set_other by exact Hne. exact Hm. }
+          rewrite (Hget k (or_introl Hk)) in H1. rewrite (Hget c_Seed (or_intror eq_refl)) in H2.
+          rewrite Es in H2. inversion H2; subst ts' seed'.
+          exists t', u', t2, s2. repeat split; first [assumption|reflexivity].
+      + destruct Hk as [->|Hk]; [|contradiction].
+        exists t1, u1, t2, s2. split; [first [exact Ea|reflexivity]|]. split; [first [exact Es|reflexivity]|]. split.
+        * rewrite (seed_wrap_get_other _ _ _ _ _ _ E Hkt). apply dict_get_set_same.
+        * eapply seed_wrap_mono; [exact E|]. subst r1. cbn. apply md_add_In. left. reflexivity.
+    - destruct Hk as [->|Hk]; [congruence|]. eapply IH; eassumption.
+  Qed.
+
+  (* seed_response, wrapped-asset clause: an asset cap the simulator sent (k in the wrappable set, present
+     in the body, not also a requested proxy cap) is replaced in the body by the wrapper URL built from the
+     region's current Seed URL and the cap's current URL, and that wrapper URL is registered for the region
+     as k+"ProxyWrapper" of type WRAPPER *)
+  Theorem seed_response_wraps : forall worder needed r body p' r' k,
+    wrapper_names_disjoint worder ->
+    seed_response wrap worder needed r body = (Some p', r') ->
+    In k worder -> dict_mem k body = true -> ~ In k needed ->
+    exists t u ts seed,
+      md_get k (r_caps (update_caps r body)) = Some (t, u) /\
+      md_get c_Seed (r_caps (update_caps r body)) = Some (ts, seed) /\
+      dict_get k p' = Some (VStr (wrap k seed u)) /\
+      In ((k ++ c_ProxyWrapper)%list, (WRAPPER, wrap k seed u)) (r_caps r').
+  Proof.
+    intros worder needed r body p' r' k Hd. unfold seed_response.
+    destruct (seed_wrap wrap worder (update_caps r body) body) as [[p2|] r2] eqn:Ew; [|discriminate].
+    intros E Hk Hm Hn. inversion E as [[En Hr]]. subst r2.
+    destruct (seed_wrap_exact _ _ _ _ _ Hd Ew k Hk Hm) as [t [u [ts [seed [H1 [H2 [H3 H4]]]]]]].
+    exists t, u, ts, seed. repeat split; try assumption.
+    rewrite (seed_needed_get_other _ _ _ _ _ En Hn). exact H3.
+  Qed.
+
+  (* ... and when the body's keys are distinct (an LLSD map) the wrapped URL is the one the simulator just sent *)
+  Corollary seed_response_wraps_sent : forall worder needed r body p' r' k u0,
+    wrapper_names_disjoint worder -> NoDup (map fst body) ->
+    seed_response wrap worder needed r body = (Some p', r') ->
+    In k worder -> In (k, VStr u0) body -> prefix c_http u0 = true -> ~ In k needed ->
+    exists ts seed,
+      md_get c_Seed (r_caps (update_caps r body)) = Some (ts, seed) /\
+      dict_get k p' = Some (VStr (wrap k seed u0)) /\
+      In ((k ++ c_ProxyWrapper)%list, (WRAPPER, wrap k seed u0)) (r_caps r').
+  Proof.
+    intros worder needed r body p' r' k u0 Hd Hnd E Hk Hin Hp Hn.
+    assert (Hm : dict_mem k body = true) by (eapply dict_mem_In; exact Hin).
+    destruct (seed_response_wraps _ _ _ _ _ _ _ Hd E Hk Hm Hn) as [t [u [ts [seed [H1 [H2 [H3 H4]]]]]]].
+    rewrite (update_caps_head body r k u0 Hnd Hin Hp) in H1. inversion H1; subst.
+    exists ts, seed. repeat split; assumption.
+  Qed.
+End WrapClause.
+
+(* the wrapper URL as the code builds it: urlunsplit with the scheme forced to http and the netloc replaced by
+   lower(name)-sha256(seed_id)[:16].hippo-proxy.localhost; sha256/lower/urlsplit are oracles *)
+Section WrapOracles.
+  Variable host : str -> str -> str.       (* cap name, seed id |-> f"{name.lower()}-{sha256(seed_id).hexdigest()[:16]}.hippo-proxy.localhost" *)
+  Variable unsplit : str -> str -> str.    (* netloc, original URL |-> urlunsplit(["http", netloc] + urlsplit(url)[2:]) *)
+  Variable seed_id : str -> str.           (* seed_url.split("/")[-1] *)
+
+  (* sha256 (truncated to 16 hex digits) is collision-free on the seed ids in play and lower-casing separates cap names *)
+  Hypothesis host_inj : forall n i n' i', host n i = host n' i' -> n = n' /\ i = i'.
+  (* urlsplit recovers the netloc urlunsplit was given *)
+  Hypothesis unsplit_netloc : forall h u h' u', unsplit h u = unsplit h' u' -> h = h'.
+
+  Definition wrap_c (name seed u : str) : str := unsplit (host name (seed_id seed)) u.
+
+  Theorem wrap_c_inj : forall n s u n' s' u', wrap_c n s u = wrap_c n' s' u' -> n = n' /\ seed_id s = seed_id s'.
+  Proof. intros n s u n' s' u' H. apply unsplit_netloc in H. apply host_inj in H. exact H. Qed.
+
+  (* wrapper URLs handed to viewers separate regions (different seed ids) and cap names *)
+  Theorem wrapper_urls_distinct : forall worder needed1 needed2 r1 r2 body1 body2 p1 p2 r1' r2' k1 k2 w1 w2 t1 seed1 t2 seed2,
+    wrapper_names_disjoint worder ->
+    seed_response wrap_c worder needed1 r1 body1 = (Some p1, r1') ->
+    seed_response wrap_c worder needed2 r2 body2 = (Some p2, r2') ->
+    In k1 worder -> dict_mem k1 body1 = true -> ~ In k1 needed1 ->
+    In k2 worder -> dict_mem k2 body2 = true -> ~ In k2 needed2 ->
+    md_get c_Seed (r_caps (update_caps r1 body1)) = Some (t1, seed1) ->
+    md_get c_Seed (r_caps (update_caps r2 body2)) = Some (t2, seed2) ->
+    dict_get k1 p1 = Some (VStr w1) -> dict_get k2 p2 = Some (VStr w2) ->
+    k1 <> k2 \/ seed_id seed1 <> seed_id seed2 -> w1 <> w2.
+  Proof.
+    intros worder needed1 needed2 r1 r2 body1 body2 p1 p2 r1' r2' k1 k2 w1 w2 t1 seed1 t2 seed2
+           Hd E1 E2 Hk1 Hm1 Hn1 Hk2 Hm2 Hn2 Hs1 Hs2 Hg1 Hg2 Hdiff Heq.
+    destruct (seed_response_wraps wrap_c _ _ _ _ _ _ _ Hd E1 Hk1 Hm1 Hn1) as [ta [ua [tsa [sa [_ [A2 [A3 _]]]]]]].
+    destruct (seed_response_wraps wrap_c _ _ _ _ _ _ _ Hd E2 Hk2 Hm2 Hn2) as [tb [ub [tsb [sb [_ [B2 [B3 _]]]]]]].
+    rewrite Hs1 in A2. inversion A2; subst. rewrite Hs2 in B2. inversion B2; subst.
+    rewrite Hg1 in A3. inversion A3; subst. rewrite Hg2 in B3. inversion B3 as [Hw].
+    apply wrap_c_inj in Hw. destruct Hw as [Hn Hi]. destruct Hdiff; contradiction.
+  Qed.
+End WrapOracles.
+
+(* ====================================================================== *)
+(* Wave 2: seed request with duplicate names                               *)
+
+Definition str_dec : forall a b : str, {a = b} + {a <> b} := list_eq_dec ascii_dec.
+
+(* number of PROXY_ONLY items of that name in caps *)
+Definition pcount (caps : list entry) (n : str) : nat :=
+  List.length (filter (fun e : entry => str_eqb (fst e) n && captype_eqb (fst (snd e)) PROXY_ONLY) caps).
+
+Lemma remove_first_count_same : forall x l, In x l ->
+  S (count_occ str_dec (remove_first str_eqb x l) x) = count_occ str_dec l x.
+Proof. intros. apply remove_first_count; [apply str_eqb_eq|assumption]. Qed.
+
+Lemma remove_first_count_other : forall x y l, y <> x ->
+  count_occ str_dec (remove_first str_eqb x l) y = count_occ str_dec l y.
+Proof.
+  intros x y l Hne. induction l as [|z l IH]; cbn; [reflexivity|].
+  destruct (str_eqb z x) eqn:E.
+  - apply str_eqb_eq in E. subst z. destruct (str_dec x y); [congruence|reflexivity].
+  - cbn. destruct (str_dec z y); [f_equal|]; exact IH.
+Qed.
+
+Lemma pcount_cons : forall e caps n,
+  pcount (e :: caps) n =
+  (if str_eqb (fst e) n && captype_eqb (fst (snd e)) PROXY_ONLY then 1 else 0) + pcount caps n.
+Proof.
+  intros. unfold pcount. cbn [filter].
+  destruct (str_eqb (fst e) n && captype_eqb (fst (snd e)) PROXY_ONLY); reflexivity.
+Qed.
+
+Lemma sr_fold_count : forall caps l nd n,
+  count_occ str_dec (fst (fold_left sr_step caps (l, nd))) n = count_occ str_dec l n - pcount caps n.
+Proof.
+  induction caps as [|e caps IH]; intros l nd n; cbn [fold_left].
+  - unfold pcount. cbn. rewrite Nat.sub_0_r. reflexivity.
+  - rewrite pcount_cons. unfold sr_step at 2. cbn [fst snd].
+    destruct (captype_eqb (fst (snd e)) PROXY_ONLY) eqn:Et; cbn [andb].
+    + rewrite andb_true_r. destruct (str_mem (fst e) l) eqn:Em.
+      * rewrite IH. apply str_mem_In in Em.
+        destruct (str_eqb (fst e) n) eqn:En.
+        -- apply str_eqb_eq in En. subst n. pose proof (remove_first_count_same _ _ Em) as Hc. lia.
+        -- apply str_eqb_neq in En. rewrite remove_first_count_other by congruence. reflexivity.
+      * rewrite IH.
+        destruct (str_eqb (fst e) n) eqn:En; [|reflexivity].
+        apply str_eqb_eq in En. subst n.
+        assert (Hz : count_occ str_dec l (fst e) = 0).
+        { apply count_occ_not_In. intro Hin. apply str_mem_In in Hin. congruence. }
+        rewrite Hz. reflexivity.
+    + rewrite IH. rewrite andb_false_r. reflexivity.
+Qed.
+
+(* seed_request for ANY request list (duplicates allowed): of each name, exactly as many copies are removed
+   from the upstream list as the region has PROXY_ONLY items of that name (at most all of them) *)
+Theorem seed_request_counts : forall caps req n,
+  count_occ str_dec (fst (seed_request caps req)) n = count_occ str_dec req n - pcount caps n.
+Proof. intros. exact (sr_fold_count caps req [] n). Qed.
